@@ -27,7 +27,7 @@ TCrash == /\ l <= Len(Trace) /\ Ev.op = "fcrash"
                       \cup (IF e.mode = "ioerr" /\ e.limit < e.len /\ e.child = "ok"
                             THEN {[p |-> "C18", l |-> l, tr |-> e.id, why |-> "the file backend does not return a failed write to the caller of Store", h |-> 0]} ELSE {})
                       \* C18: a name whose only write returned an error was never written: loading it gives an error, not data
-                      \cup (IF e.mode \in {"ioerr", "enospc"} /\ e.child = "err" /\ e.load1 # -1
+                      \cup (IF e.mode \in {"ioerr", "enospc", "transient"} /\ e.child = "err" /\ e.load1 # -1
                             THEN {[p |-> "C18", l |-> l, tr |-> e.id, why |-> "loading a name whose only write returned an error gives data instead of an error", h |-> 0]} ELSE {})
                       \cup (IF e.restore # "ok" THEN {V("storing the node again after the failure does not succeed")}
                             ELSE IF ~(e.load2 = e.len /\ e.same2) THEN {V("storing the node again does not repair it (skipped because a file exists)")} ELSE {})
